@@ -277,6 +277,33 @@ def eval_model(ck, cases, shard=40):
     return out, okall
 
 
+def alt_builders(ck, binp):
+    """column-store / column-index / stream shard-key builders under the direct oracle only (no model)"""
+    n = 150 if ck.tier == "quick" else 4000
+    rc, out = ck.run([binp, "alt", str(n)], timeout=900)
+    cases = []
+    for l in out.splitlines():
+        if l.startswith('{"alt"'):
+            try:
+                cases.append(json.loads(l))
+            except ValueError:
+                pass
+    if rc != 0 or len(cases) != n:
+        ck.broken.append("harness c11 alt failed rc=%d cases=%d: %s" % (rc, len(cases), out[-400:]))
+        return
+    kinds, nontriv, viol = {}, 0, 0
+    for c in cases:
+        kinds[c["kind"]] = kinds.get(c["kind"], 0) + 1
+        if len(c["mapped"] or []) < c["nshards"] and any(not p["err"] and p["sat"] for p in c["points"] or []):
+            nontriv += 1
+        for msg in c["oracle"]:
+            viol += 1
+            if viol <= 2:
+                ck.violation({"kind": "direct-oracle-alt", "what": "%s shard-key builder: %s" % (c["kind"], msg), "case": c})
+    ck.cov["alt_builder_cases"] = kinds
+    ck.cov["alt_builder_cases_pruned_with_matching_row"] = nontriv
+
+
 def setup():
     """pre-build the server binary used by the black-box part"""
     ck = vlib.Check(PID, "quick")
@@ -555,6 +582,7 @@ def main(ck):
                       "read path pruned at least one alive shard AND at least one routed row of the queried measurement satisfies "
                       "the query; distinct = different (cfg, condition, queried measurement, rows)")
     if not getattr(ck, "replay", None):
+        alt_builders(ck, binp)
         blackbox(ck)
     ck.cov["points_routed_and_satisfying"] = sat_routed
     ck.cov["input_histogram"] = hist
